@@ -47,7 +47,7 @@ from onnxscript.rewriter.rules.fusion import _rms_normalization
 # scripts (source text; compiled into a FRESH module at every translate event)
 # ---------------------------------------------------------------------------------------------------------
 
-NAMES = ["alpha", "beta", "acc", "run", "p", "q", "r", "tot"]  # variable names the scripts put into sets
+from vf.props.c14 import EVENT_NAMES, NAMES  # noqa: E402  (light module: no onnxscript import)
 
 _HDR18 = ("import numpy as np\nfrom onnxscript import opset18 as op\n"
           "from onnxscript.onnx_types import FLOAT, INT64, BOOL\n")
@@ -122,8 +122,8 @@ def g_ndarray(x: FLOAT[2]) -> FLOAT[2]:
 def g_tensorproto(x: FLOAT[2]) -> FLOAT[2]:
     return x + op.Constant(value=TP)
 
-def g_list(x: FLOAT[2]) -> FLOAT[2]:
-    return op.Squeeze(op.Unsqueeze(x, LST), LST)
+def g_list(x: FLOAT[2]) -> FLOAT:
+    return op.Unsqueeze(x, LST)
 '''
 G_KINDS = ["rebind", "ndarray", "tensorproto", "list"]
 
@@ -330,11 +330,11 @@ def m_mixed():
         helper.make_node("Reshape", ["c1", "sc"], ["c2"], name="c_rs2", allowzero=1),
         helper.make_node("Flatten", ["x"], ["d1"], name="d_flat", axis=2),
         helper.make_node("Flatten", ["u"], ["e1"], name="e_flat", axis=2),
-        helper.make_node("Flatten", ["x"], ["f1"], name="f_flat", axis=0),
+        helper.make_node("Flatten", ["x2"], ["f1"], name="f_flat", axis=0),
     ]
     return _model(
         nodes,
-        [_vi("x", [2, 3, 4]), _vi("dyn", [2], TensorProto.INT64), _vi("u", None)],
+        [_vi("x", [2, 3, 4]), _vi("dyn", [2], TensorProto.INT64), _vi("u", None), _vi("x2", [3, 2, 2])],
         [_vi(n, None) for n in ("a2", "b2", "c2", "d1", "e1", "f1")],
         [_i64("s1", [6, 4]), _i64("sa", [3, 8]), _i64("sc", [12, 2, 1])])
 
@@ -350,6 +350,10 @@ def m_mulmul(c1, c2, flatten=True):
 
 
 def m_fold(variant):
+    if variant == 2:   # nothing to fold: the pass must report "not modified" whatever it did before
+        nodes = [helper.make_node("Add", ["x", "x"], ["t"], name="dbl"),
+                 helper.make_node("Relu", ["t"], ["y"], name="act")]
+        return _model(nodes, [_vi("x", [2, 2])], [_vi("y", [2, 2])])
     if variant == 0:   # pure constants + shape of a static input
         nodes = [helper.make_node("Add", ["k1", "k2"], ["k3"], name="add"),
                  helper.make_node("Shape", ["x"], ["sx"], name="shape"),
@@ -384,7 +388,8 @@ def m_rms(dtype):
     ct = TensorProto.FLOAT if dtype == "f16" else TensorProto.DOUBLE
     npt = np.float32 if dtype == "f16" else np.float64
     nodes += [helper.make_node("Pow", [src, "two"], ["sq"], name="pow"),
-              helper.make_node("ReduceMean", ["sq", "axes"], ["ms"], name="mean", keepdims=1),
+              helper.make_node("ReduceMean", ["sq", "axes"], ["ms"], name="mean", keepdims=1,
+                               noop_with_empty_axes=0),
               helper.make_node("Add", ["ms", "eps"], ["mse"], name="add"),
               helper.make_node("Sqrt", ["mse"], ["rms"], name="sqrt"),
               helper.make_node("Reciprocal", ["rms"], ["rr"], name="recip"),
@@ -483,10 +488,6 @@ def ev_opt_reshape2():
     return _optimize(m_reshape2(0))
 
 
-def ev_opt_reshape2b():
-    return _optimize(m_reshape2(1))
-
-
 def ev_opt_padconv():
     out = _optimize(m_padconv(0))
     out["model_b"] = _ser_plain(onnxscript.optimizer.optimize(m_padconv(1)))
@@ -524,25 +525,26 @@ def ev_rw_patternraises():
     return {}
 
 
-def ev_rw_newrule():
+def _newrule():
     """a NEW rule object whose pattern uses the operator overloads (they go through the global builder)"""
     def pat(op, x, y):
         return op.Relu((x + y) * 2.0)
 
     def repl(op, x, y):
-        return op.Relu(op.Mul(op.Add(x, y), op.Constant(value_float=2.0)))
+        s = op.Add(x, y)
+        return op.Relu(op.Add(s, s))
 
     rule = _pattern.RewriteRule(pat, repl)
     nodes = [helper.make_node("Add", ["x", "y"], ["s"], name="add"),
              helper.make_node("Mul", ["s", "two"], ["m"], name="mul"),
              helper.make_node("Relu", ["m"], ["z"], name="relu")]
     m = _model(nodes, [_vi("x", [2]), _vi("y", [2])], [_vi("z", [2])], [_f32("two", 2.0, ())])
-    return {"model": _ser_plain(onnxscript.rewriter.rewrite(m, [rule]))}
+    return _ser_plain(onnxscript.rewriter.rewrite(m, [rule]))
 
 
 def ev_rw_alt():
-    """the same RewriteRuleSet on two models alternately (A B soft-fail A B)"""
-    outs = {}
+    """the same RewriteRuleSet on two models alternately (A B soft-fail A B); then a rule built afresh"""
+    outs = {"newrule": _newrule()}
     a1 = _ser_plain(onnxscript.rewriter.rewrite(m_mulmul(2.0, 3.0, True), RULESET))
     b1 = _ser_plain(onnxscript.rewriter.rewrite(m_mulmul(5.0, 7.0, False), RULESET))
     z = _ser_plain(onnxscript.rewriter.rewrite(m_mulmul(11.0, 0.0, True), RULESET))
@@ -568,7 +570,7 @@ def ev_rw_rms():
 
 def ev_fold_reuse():
     outs = {}
-    for i, v in enumerate([0, 1, 0]):
+    for i, v in enumerate([2, 0, 1, 0, 2]):
         m = ir.serde.deserialize_model(m_fold(v))
         res = FOLD(m)
         outs[f"{i}_v{v}"] = _ser_plain(ir.serde.serialize_model(res.model))
@@ -612,10 +614,6 @@ def ev_eager_raise():
     return {}
 
 
-def ev_eager_ok():
-    return {"persist": _npbytes(F_PERSIST(_X4))}
-
-
 def ev_proto_repeat():
     """to_model_proto()^3 / to_function_proto()^3 on a freshly decorated function: identical, IR unchanged"""
     mod = _fresh_module("c14_s1", S1_SRC)
@@ -645,8 +643,8 @@ def ev_proto_repeat():
     return {"model": ms[0], "function": fs[0]}
 
 
-def ev_proto_persist():
-    """the function decorated before any history"""
+def ev_use_persist():
+    """the function decorated before any history: protos, then an eager call"""
     d0 = _fn_digest(F_PERSIST)
     a = _ser_plain(F_PERSIST.to_model_proto())
     b = _ser_plain(F_PERSIST.to_model_proto())
@@ -654,7 +652,15 @@ def ev_proto_persist():
         _note("repeat", "persist.to_model_proto()^2 not identical")
     if _fn_digest(F_PERSIST) != d0:
         _note("repeat", "persist.to_model_proto() modified function_ir")
-    return {"model": a, "function": _ser_plain(F_PERSIST.to_function_proto()), "ir": d0.encode()}
+    outs = {"model": a, "function": _ser_plain(F_PERSIST.to_function_proto()), "ir": d0.encode(),
+            "eager": _npbytes(F_PERSIST(_X4))}
+    # the returned protos belong to the caller: editing them must not reach the function or later calls
+    p = F_PERSIST.to_model_proto()
+    p.graph.node[0].name = "c14_scribble"
+    del p.graph.output[:]
+    fp = F_PERSIST.to_function_proto()
+    del fp.node[:]
+    return outs
 
 
 def ev_glob_mut():
@@ -662,38 +668,35 @@ def ev_glob_mut():
     _gmod.K = 4.0
     _gmod.ARR[0] = 100.0
     _gmod.TP.raw_data = np.array([50.0, 60.0], dtype=np.float32).tobytes()
-    if len(_gmod.LST) == 1:
-        _gmod.LST.append(0)
+    _gmod.LST[0] = 1
     return {}
 
 
-def ev_proto_g():
+def ev_use_g():
+    """the functions whose script-time constants come from globals: protos, then eager calls"""
     outs = {}
     for k in G_KINDS:
-        outs[k] = _ser_plain(F_G[k].to_model_proto())
-        outs[k + "_fn"] = _ser_plain(F_G[k].to_function_proto())
-    return outs
-
-
-def ev_eager_g():
-    outs = {}
+        outs["proto/" + k] = _ser_plain(F_G[k].to_model_proto()) + b"|" + _ser_plain(F_G[k].to_function_proto())
     for k in G_KINDS:
         try:
-            outs[k] = _npbytes(F_G[k](_X2))
+            outs["eager/" + k] = _npbytes(F_G[k](_X2))
         except Exception as e:
-            outs[k] = ("raise:" + type(e).__name__).encode()
+            outs["eager/" + k] = ("raise:" + type(e).__name__).encode()
     return outs
 
 
 EVENTS = {
     "tr_s1": ev_tr_s1, "tr_s2": ev_tr_s2, "tr_s3": ev_tr_s3,
-    "opt_reshape2": ev_opt_reshape2, "opt_reshape2b": ev_opt_reshape2b, "opt_padconv": ev_opt_padconv,
-    "opt_matreshape": ev_opt_matreshape, "opt_nearmiss": ev_opt_nearmiss, "opt_mixed": ev_opt_mixed,
-    "rw_checkraises": ev_rw_checkraises, "rw_patternraises": ev_rw_patternraises, "rw_newrule": ev_rw_newrule,
-    "rw_alt": ev_rw_alt, "rw_rms": ev_rw_rms, "fold_reuse": ev_fold_reuse, "convert": ev_convert,
-    "eager_raise": ev_eager_raise, "eager_ok": ev_eager_ok, "proto_repeat": ev_proto_repeat,
-    "proto_persist": ev_proto_persist, "glob_mut": ev_glob_mut, "proto_g": ev_proto_g, "eager_g": ev_eager_g,
+    "opt_reshape2": ev_opt_reshape2, "opt_padconv": ev_opt_padconv, "opt_matreshape": ev_opt_matreshape,
+    "opt_nearmiss": ev_opt_nearmiss, "opt_mixed": ev_opt_mixed,
+    "rw_checkraises": ev_rw_checkraises, "rw_patternraises": ev_rw_patternraises, "rw_alt": ev_rw_alt,
+    "rw_rms": ev_rw_rms, "fold_reuse": ev_fold_reuse, "convert": ev_convert,
+    "eager_raise": ev_eager_raise, "use_persist": ev_use_persist, "proto_repeat": ev_proto_repeat,
+    "glob_mut": ev_glob_mut, "use_g": ev_use_g,
 }
+
+
+assert list(EVENTS) == list(EVENT_NAMES), "event alphabet of c14.py and c14_events.py differ"
 
 
 def run_event(name, want_bytes=False):
@@ -851,6 +854,7 @@ def _family(sizes):
 
 
 def _expand(job):
+    import onnxruntime  # noqa: F401  (imported before forking: every child would otherwise import it again)
     steps = []
     for ev in job["history"]:
         r = run_event(ev)
@@ -887,7 +891,12 @@ def _expand(job):
                             "changed": []}
         else:
             children[ev] = json.loads(data)
-    return {"steps": steps, "root_key": root_key, "children": children}
+    inproc = None
+    if job.get("verify"):
+        # fork-fidelity cross-check: the parent itself (no fork) executes one event after all children are done
+        inproc = run_event(job["verify"])
+        inproc["key"] = state_key()[0]
+    return {"steps": steps, "root_key": root_key, "children": children, "inproc": inproc}
 
 
 def main():
